@@ -75,8 +75,6 @@ def run(ctx):
         wait = r.choice([0, 1])
         maxT = r.choice([0, 1, 2, 3, N, N + 1, (1 << 31) - 1, 1 << 31])
         n = r.choice([0, 1, 2, 3, N, N + 1, r.randint(0, 60)])
-        if N == 0 and wait == 0 and n > 0 and maxT % (1 << 32) != 0:
-            wait = 1                                   # the C15 finding (division by zero) is C15's business
         fe.append({'cat': r.choice(['ra', 'bi']), 'n': n, 'N': N, 'maxT': maxT, 'wait': wait})
     fe_out = plan_common.run_lines(exe, ['fe %s %d %d %d %d' % (c['cat'], c['n'], c['N'], c['maxT'], c['wait']) for c in fe])
     fe_terms, fe_kept = [], []
